@@ -176,6 +176,8 @@ type flowRun struct {
 	script       []string
 	newMS        []*mhttp2.MStream
 	settingsAcks int
+	// goAwayExpected: the script contains a graceful shutdown (the peer's GOAWAY(NO_ERROR) or MOSN's own GracefulShutdown)
+	goAwayExpected bool
 }
 
 func (r *flowRun) log(format string, a ...interface{}) {
@@ -383,7 +385,11 @@ func (r *flowRun) collect() {
 				r.fail("flow/sender-reset-stream", "MOSN reset stream %d (code %v) after %d of %d body bytes", st.id, f.ErrCode, st.got, len(st.body))
 			}
 		case *xhttp2.GoAwayFrame:
-			r.fail("flow/mosn-sent-goaway", "MOSN sent GOAWAY code %v to a well-behaved peer", f.ErrCode)
+			// a graceful GOAWAY (NO_ERROR) is MOSN's answer to the peer's own GOAWAY or to its GracefulShutdown call: the
+			// streams in flight go on. Anything else is an error MOSN raises against a well-behaved peer.
+			if f.ErrCode != xhttp2.ErrCodeNo || !r.goAwayExpected {
+				r.fail("flow/mosn-sent-goaway", "MOSN sent GOAWAY code %v to a well-behaved peer", f.ErrCode)
+			}
 		}
 	}
 }
@@ -549,8 +555,12 @@ func flowCase(rt *rapid.T) {
 			break
 		}
 	}
-	sawSettingsChange, sawNegative := false, false
+	sawSettingsChange, sawNegative, sawGoAway := false, false, false
+	wantGoAway := rapid.IntRange(0, 2).Draw(rt, "gracefulShutdownMidTransfer") == 0
 	defer func() {
+		if sawGoAway {
+			classes = append(classes, "goaway-mid-transfer")
+		}
 		if sawSettingsChange {
 			classes = append(classes, "settings-initial-window-change-mid-stream")
 		}
@@ -728,7 +738,32 @@ func flowCase(rt *rapid.T) {
 		for s := 0; s < nSteps && !r.allEnded(); s++ {
 			batch := rapid.SampledFrom([]int{1, 1, 1, 2, 3}).Draw(rt, "batch")
 			for b := 0; b < batch; b++ {
-				switch rapid.SampledFrom([]string{"conn", "conn", "stream", "stream", "stream", "settings", "ping"}).Draw(rt, "op") {
+				op := rapid.SampledFrom([]string{"conn", "conn", "stream", "stream", "stream", "settings", "ping", "goaway"}).Draw(rt, "op")
+				if op == "goaway" && (r.goAwayExpected || !wantGoAway) {
+					op = "ping"
+				}
+				switch op {
+				case "goaway":
+					// graceful shutdown in the middle of the transfer: "delivers the complete body as window updates
+					// arrive" also for the streams that are in flight when a GOAWAY(NO_ERROR) is exchanged
+					r.goAwayExpected = true
+					sawGoAway = true
+					var last uint32
+					for _, st := range r.streams {
+						if st.id > last {
+							last = st.id
+						}
+					}
+					if r.role == "server" && rapid.Bool().Draw(rt, "mosnGoesAway") {
+						r.mosn("GracefulShutdown", func() { r.sc.GracefulShutdown() })
+						r.log("MOSN GracefulShutdown")
+					} else {
+						if r.role == "server" {
+							last = 0 // a client's GOAWAY names the last server-initiated stream: none
+						}
+						_ = r.pfr.WriteGoAway(last, xhttp2.ErrCodeNo, nil)
+						r.log("peer GOAWAY(NO_ERROR, last=%d)", last)
+					}
 				case "conn":
 					inc := rapid.SampledFrom(increments).Draw(rt, "inc")
 					if r.connCred+inc > maxWindow {
